@@ -90,3 +90,27 @@ void h_C01_fill_yly_yd_all(void)
 	if (in && xm == 12U) { SENTINEL("yly yd_all december member"); }
 	SENTINEL("fill_yly_yd_all");
 }
+
+/* every day of the listed months on a listed weekday (YEARLY;BYMONTH=..;BYDAY=XX,..) */
+void h_C01_fill_yly_md_all(void)
+{
+	static bitint383_t cand[1];
+	static unsigned int ms[12];
+	IN_RANGE(unsigned, y, 1901, 2099);
+	IN_RANGE(unsigned, m1, 1, 12); IN_RANGE(unsigned, m2, 1, 12);
+	IN_RANGE(unsigned, nm, 1, 2);
+	IN_RANGE(unsigned, wdm, 0, 255);
+	IN_RANGE(unsigned, x, 0, 383);	/* witness */
+	ASSUME(m1 < m2);
+	H_RESET();
+	memset(ms, 0, sizeof(ms));
+	ms[0] = m1, ms[1] = m2;
+	fill_yly_md_all(cand, SCALE_GREGORIAN, y, ms, nm, (uint8_t)wdm);
+	const unsigned xm = x / 32U + 1U, xd = x % 32U;
+	const int listed = xm == m1 || (nm > 1U && xm == m2);
+	const int in = listed && 1U <= xd && (int)xd <= S_MDAYS(y, xm <= 12U ? xm : 1U) && (wdm >> 1U) && ((wdm >> S_WDAY(y, xm, xd ? xd : 1U)) & 1U);
+	ASSERT(g_oob == 0U, "nothing outside the container is assigned");
+	ASSERT((H_HAS(x) != 0U) == (in != 0), "exactly the days of the listed months on a listed weekday are selected");
+	if (in && nm > 1U && xm == m2) { SENTINEL("yly md_all second month member"); }
+	SENTINEL("fill_yly_md_all");
+}
